@@ -395,7 +395,18 @@ def all_streams(ctx):
     s4 = TwoPhase("c19tls", "c19tls", tc, extra_oracle=tls_extra_oracle, monitor=tls_monitor, key=tls_key,
                   nontrivial=lambda c, i: "InvalidInput" not in i and "PANIC" not in i,
                   describe="%d TLS connector cases (rustls 0.23/0.22/0.21/0.20, OpenSSL and native-tls connectors x rustls / OpenSSL servers x names x certificates x mem/tcp)" % len(tc))
-    return [s1, s2], [s3, s4]
+    # http::Uri as connect address (feature `uri`): every scheme of the table + unknown ones x hosts x ports, and scheme-less forms
+    schemes = ["http", "https", "ws", "wss", "amqp", "amqps", "mqtt", "mqtts", "ftp", "ftps", "redis", "mysql", "postgres",
+               "gopher", "htt", "httpss", "w", "ssh", "redis2", "my-sql", "a+b.c"]
+    hosts = ["example.com", "a", "127.0.0.1", "[::1]", "x-y.test", "localhost"]
+    ports = ["-", "1", "80", "443", "8080", "65535", "0"]
+    uc = ["%s;%s;%s" % (hx(sc), hx(h), p) for sc in schemes for h in hosts for p in ports]
+    uc += ["-;%s;%s" % (hx(h), p) for h in hosts for p in ports if p != "-"] + ["-;%s;-" % hx(h) for h in hosts if "[" not in h] + ["-;-;-"]
+    s5 = Stream("c19uri", "c19uri", uc, nontrivial=lambda c, m: c.split(";")[2] == "-", exhaustive=True,
+                describe="%d URIs: 21 schemes (the 13 of the table, near misses and unknown ones) x 6 hosts x 7 port forms with http 0.2 and "
+                         "http 1, plus authority-only and path-only forms; Host::hostname/port and ConnectInfo::new(uri).port()" % len(uc),
+                finding_key=lambda c, i, m: "uri")
+    return [s1, s2, s5], [s3, s4]
 
 
 def check_idents(ctx):
